@@ -2,9 +2,11 @@ package props
 
 import (
 	"fmt"
+	dsig "github.com/russellhaering/goxmldsig"
 	"reflect"
 	"strings"
 	"testing"
+	"time"
 
 	saml2 "github.com/russellhaering/gosaml2"
 	"github.com/russellhaering/gosaml2/types"
@@ -368,6 +370,7 @@ func TestC08_Replay(t *testing.T) {
 	h.RunReplay(t, "C08", checkC08)
 	h.RunReplay(t, "C08.capture", checkC08Capture)
 	h.RunReplay(t, "C08.seq", checkC08Seq)
+	h.RunReplay(t, "C08.roll", checkC08Roll)
 }
 
 // C08Seq: the same service provider instance validates genuine responses before and after its certificate
@@ -427,3 +430,86 @@ func checkC08Seq(q C08Seq) h.Outcome {
 }
 
 func TestC08_PSeq(t *testing.T) { h.RunProp(t, "C08.seq", genC08Seq, checkC08Seq) }
+
+// C08Roll: ONE service provider and ONE certificate store object for its whole life. The store lists the IdP's
+// retired, current and pre-published next certificates (validity windows 2000, 2020-2040, one day of 2030, 2050)
+// in generated order; the clock is moved from step to step, in any direction, and at every step the IdP signs
+// with a certificate that is valid at that instant. Each of these genuine responses is accepted and reproduced.
+type C08Roll struct {
+	SP    h.SPConfig  `json:"sp"`
+	Steps []C08RollSt `json:"steps"`
+}
+
+type C08RollSt struct {
+	Cert    h.CertRef `json:"cert"`
+	NowNs   int64     `json:"now"`
+	Mode    string    `json:"mode"`
+	N       int       `json:"assertions"`
+	KeyInfo bool      `json:"keyInfo"`
+	Encoded string    `json:"encoded"`
+	Issue   *h.Genuine
+}
+
+func genC08Roll(t *rapid.T) C08Roll {
+	q := C08Roll{SP: h.BaseSP()}
+	pool := []h.CertRef{{Key: "T1", Window: "past"}, {Key: "T2", Window: "wide"}, {Key: "T3", Window: "future"}, {Key: "T1", Window: "narrow"}, {Key: "T2", Window: "past"}, {Key: "T3", Window: "wide"}, {Key: "U1", Window: "future"}}
+	perm := rapid.Permutation(pool).Draw(t, "storeOrder")
+	q.SP.Store = perm[:rapid.IntRange(2, len(perm)).Draw(t, "storeSize")]
+	n := rapid.IntRange(2, 5).Draw(t, "steps")
+	for i := 0; i < n; i++ {
+		var cands []h.CertRef
+		for _, c := range q.SP.Store {
+			if c.Key != "U1" {
+				cands = append(cands, c)
+			}
+		}
+		if len(cands) == 0 {
+			q.SP.Store = append(q.SP.Store, h.CertRef{Key: "T2", Window: "wide"})
+			cands = q.SP.Store[len(q.SP.Store)-1:]
+		}
+		st := C08RollSt{Cert: rapid.SampledFrom(cands).Draw(t, "signer"), Mode: rapid.SampledFrom([]string{"response", "assertions", "both"}).Draw(t, "mode"), N: rapid.IntRange(1, 2).Draw(t, "n"), KeyInfo: true}
+		nb, na := h.WindowBounds(st.Cert.Window)
+		st.NowNs = nb.UnixNano() + rapid.Int64Range(int64(time.Hour), na.Sub(nb).Nanoseconds()-int64(time.Hour)).Draw(t, "at")
+		sp := q.SP
+		sp.NowUnixNano = st.NowNs
+		g := gridGenuine(sp, st.N, st.Mode)
+		for _, sg := range append([]*h.SignSpec{g.RespSig}, g.AsrtSig...) {
+			if sg != nil {
+				sg.Signer = st.Cert
+				e := st.Cert
+				sg.Embed = &e
+				sg.Method = methodFor(st.Cert.Key, i)
+			}
+		}
+		_, enc, _, err := g.Render()
+		if err != nil {
+			t.Fatalf("harness: %v", err)
+		}
+		st.Encoded, st.Issue = enc, g
+		q.Steps = append(q.Steps, st)
+	}
+	return q
+}
+
+func checkC08Roll(q C08Roll) h.Outcome {
+	o := h.Outcome{NonTrivial: true, Classes: []string{fmt.Sprintf("steps:%d/store:%d", len(q.Steps), len(q.SP.Store))}}
+	sp := q.SP.Build() // the store object and the Clock object are created here and kept
+	for i, st := range q.Steps {
+		*sp.Clock = *dsig.NewFakeClockAt(time.Unix(0, st.NowNs).UTC())
+		o.Classes = append(o.Classes, "signer-window:"+st.Cert.Window)
+		resp, err := sp.ValidateEncodedResponse(st.Encoded)
+		if err != nil {
+			o.Violation = h.V("rollover/genuine-rejected", "step %d of %d: a genuine response signed with %v, which is in the store %v and valid at the clock %s, is rejected by the long-lived service provider: %v",
+				i+1, len(q.Steps), st.Cert, q.SP.Store, time.Unix(0, st.NowNs).UTC().Format(time.RFC3339), err)
+			return o
+		}
+		if d := compareResponse(&st.Issue.Model, resp); d != "" {
+			o.Violation = h.V("rollover/"+mismatchSig(d), "step %d: %s", i+1, d)
+			return o
+		}
+	}
+	o.Classes = dedup(o.Classes)
+	return o
+}
+
+func TestC08_PRoll(t *testing.T) { h.RunProp(t, "C08.roll", genC08Roll, checkC08Roll) }
